@@ -226,6 +226,14 @@ inline int bin_base() { return vrt::thorough() ? 3 : 2; }
       ::vrt::fail((sig), ::vrt::fmt(__VA_ARGS__));     \
     }                                                  \
   } while (0)
+// A deviation that is an implementation detail (not promised by the property text, the documentation or the declared
+// signature): recorded in the evidence as counter info:<sig>, never a verdict.
+#define INFO_ONLY(cond, sig)                                       \
+  do                                                               \
+  {                                                                \
+    if (!(cond))                                                   \
+      ::vrt::count(std::string("info:") + std::string(sig));       \
+  } while (0)
 #define SAMPLE()                                       \
   do                                                   \
   {                                                    \
